@@ -456,7 +456,10 @@ UNITS += QVIEW
 uq_ctor = dict(
     name='UQ.ctor', primary='C02', props={'C02'}, kind='L',
     desc='UnboundedSPSCQueue constructor: one buffer of the requested capacity, producer and consumer on it, the maximum capacity recorded',
-    structs=[BQ_STRUCT, NODE_STRUCT, UQ_STRUCT, RR_STRUCT], prelude=PRODUCER, enforce='UQ_ctor', replace=['Node_new'],
+    structs=[BQ_STRUCT, NODE_STRUCT, UQ_STRUCT, RR_STRUCT], prelude=PRODUCER + r'''
+/* not called by the pinned constructor: present (by the contract unit MU.npow2 proves) so that a constructor that rounds one of its arguments is decided (seed C02-G1) */
+size_t next_power_of_two(size_t n) __CPROVER_assigns() __CPROVER_ensures(POW2(RET)) __CPROVER_ensures(n <= (((size_t)1) << 63) ==> (RET >= n && (RET == 1 || RET / 2 < n)));
+''', enforce='UQ_ctor', replace=['Node_new', 'next_power_of_two'],
     funcs=[dict(src=dict(header=H, cls='UnboundedSPSCQueue', name='UnboundedSPSCQueue', part='ctor'), struct='UQ',
                 src_params=['initial_bounded_queue_capacity', 'max_capacity', 'huge_pages_policy'], cfun='UQ_ctor',
                 sig='void UQ_ctor(UQ* self, size_t initial_bounded_queue_capacity, size_t max_capacity, HugePagesPolicy huge_pages_policy)', cls_c='UQ', siblings=[],
